@@ -18,30 +18,19 @@ package indent
 //@     : ((n - (i > 0 ? p : 0)) <= len(a[o+i]) ? (n - (i > 0 ? p : 0))
 //@     : len(a[o+i]) + cb(n - (i > 0 ? p : 0) - len(a[o+i]), p, a, o, i+1, m)))
 //
-// total(a, o, k): the caller bytes in the first k elements.
-//@ spec total(a array[[]byte], o int, k int) int = k <= 0 ? 0 : total(a, o, k-1) + len(a[o+k-1])
-//
-//@ lemma totalMono(a array[[]byte], o int, k int, m int) props C20
-//@   requires 0 <= k && k <= m && (forall j int :: o <= j && j < o + m ==> len(a[j]) >= 0)
-//@   ensures  total(a, o, k) <= total(a, o, m)
-//@   induction m
-//@   trigger total(a, o, k), total(a, o, m)
-//
 //@ func actualWrittenSize props C20
 //@   requires prefix >= 0
 //@   ensures  result == cb(underlay, prefix, back(lines), off(lines), 0, len(lines))
 //@   ensures  0 <= result && (underlay >= 0 ==> result <= underlay)
-//@   ensures  result <= total(back(lines), off(lines), len(lines))
 //@   pure
 //@   safe
 //@   nowrap
-//@   uses totalMono
 //@   loop 1
 //@     invariant 0 <= actual && (underlay >= 0 ==> actual <= underlay - remain)
 //@     invariant remain <= underlay
 //@     invariant _k > 0 ==> remain > 0
+//@     invariant _k == 0 ==> actual == 0 && remain == underlay
 //@     invariant actual + cb(remain, prefix, back(lines), off(lines), _k, len(lines)) == cb(underlay, prefix, back(lines), off(lines), 0, len(lines))
-//@     invariant actual == total(back(lines), off(lines), _k)
 //
 //@ func (*iw).Write props C20
 //@   requires w != nil
